@@ -12,7 +12,7 @@ if ! git apply "$PATCH" 2>/tmp/apply-$NAME.err; then
   if ! git apply -3 "$PATCH" 2>>/tmp/apply-$NAME.err; then echo "SEED-EVAL $ID $PATCH: patch does not apply: $(head -3 /tmp/apply-$NAME.err)"; exit 3; fi
 fi
 PKGS=$(git diff --name-only HEAD | grep '\.go$\|\.c$\|\.h$' | xargs -n1 dirname | sort -u | sed 's|^|./|' | tr '\n' ' ')
-if ! go build ./... >/tmp/build-$NAME.log 2>&1; then echo "SEED-EVAL $ID: does not build"; grep -v warning /tmp/build-$NAME.log | grep -i "error\|cannot\|undefined" | head; exit 4; fi
+if ! go build ./pkg/... ./cmd/obitools/... >/tmp/build-$NAME.log 2>&1; then echo "SEED-EVAL $ID: does not build"; grep -v warning /tmp/build-$NAME.log | grep -i "error\|cannot\|undefined" | head; exit 4; fi
 go test -vet=off -count=1 -json $PKGS 2>/dev/null | python3 -c "
 import sys,json
 base=set(json.load(open('/root/.vp/BASELINE.json'))['stable_pass'])
